@@ -783,6 +783,7 @@ def eval_multi(ctx, spec):
     n, nwn = p['nlayers'], len(wn)
     P, lev = p['P'], p['Plev']
     total = np.zeros((n, nwn))
+    total_held = np.zeros((n, nwn))     # what the haze objects hold (each judged against the model just below)
     cloudy = np.zeros(n, bool)
     rounding = False
     active = 0
@@ -814,6 +815,7 @@ def eval_multi(ctx, spec):
             ctx.check_close('LeeMie sigma_xsec vs Haze.leeSigma (model declaring several hazes / clouds)',
                             sig.ravel(), msig.ravel(), sm, rel=1e-9, abs_=1e-300)
         total = total + msig
+        total_held = total_held + sig
         part = np.any(msig > 0, axis=1)
         active += int(part.any() and not part.all())
     if np.any(trans[cloudy] != 0.0):
@@ -822,8 +824,11 @@ def eval_multi(ctx, spec):
     if rounding:
         ctx.bucket('multi:ray-extinction-not-judged:rounding-level-window')
     else:
-        # the optical depth all declared hazes add to each ray vs the SUM of the per-haze model values
-        ray_extinction(ctx, spec, 'multi', total, trans, trans0, p)
+        # the optical depth all declared hazes add to each ray vs the SUM of the per-haze cross-sections — those the objects
+        # hold, as in eval_haze (each was compared with its model value above; a window bound within rounding of a layer
+        # level gives that layer a weight of ~1e-16 of the declared magnitude where the exact model says 0: times the
+        # column density that is ~1e-9 in optical depth, a rounding effect the ray predicate must not see)
+        ray_extinction(ctx, spec, 'multi', total_held, trans, trans0, p)
     ctx.case(key=('multi', mixname, n, bool(spec['new_path_method']), route) if active >= 2 else None,
              sample=dict(kind='multi', mix=spec['mix'], classes=spec['classes'], nlayers=n, route=route, sigma_sum=total[:4, 0]),
              bucket='multi:' + ('' if route == 'python' else 'input-file:') + mixname)
